@@ -33,7 +33,8 @@ CONSTANTS SDs,        \* shard group durations the policy can be altered to (uni
           MaxGroups,  \* bound on the number of groups a history creates (incl. deleted ones)
           CreateTimes, TruncTimes, MaxDel,  \* alphabet of the histories: instants of Create / Truncate, bound on deleted groups
           CreateExtremes,                   \* TRUE: histories also create groups at LO and HI
-          MaxBatch,   \* longest batch quantified over by the invariants
+          MaxBatch,   \* longest batch quantified over by the invariants (infinite policy)
+          MaxBatchCut, \* same under a finite cut-off
           Series,     \* 1..S
           HashCodes,  \* {100*series + 10*n + (FNV64a(canonical key) mod n)} computed by the orchestrator
           Cuts,       \* finite cut-offs quantified over (subset of the normal instants)
@@ -266,7 +267,7 @@ BatchIndependent(R, b, W) ==
 
 AllBatches(P(_, _, _)) ==
   LET WT == WantTable IN
-  \A c \in CutsHere : \A b \in Batches(MaxBatch) : P(b, c, WT[c])
+  \A c \in CutsHere : \A b \in Batches(IF c = NoCut THEN MaxBatch ELSE MaxBatchCut) : P(b, c, WT[c])
 
 C08_ExactlyOne == AllBatches(LAMBDA b, c, W : ExactlyOne(MapShards(M0, b, c), b, c))
 C08_DesignatedGroup == AllBatches(LAMBDA b, c, W : DesignatedGroup(MapShards(M0, b, c), b, c))
@@ -284,10 +285,10 @@ CreateAll(i, b, cut, M) ==
 LazyEqualsPre(R, b, c) == [G |-> R.G, nsh |-> R.nsh] = CreateAll(1, b, c, M0)
 C08_LazyEqualsPre == AllBatches(LAMBDA b, c, W : LazyEqualsPre(MapShards(M0, b, c), b, c))
 
-\* all of the above in one pass (MapShards is evaluated once per batch)
+\* the five routing properties in one pass (MapShards is evaluated once per batch)
 C08_All == AllBatches(LAMBDA b, c, W : LET R == MapShards(M0, b, c) IN
              /\ ExactlyOne(R, b, c) /\ DesignatedGroup(R, b, c) /\ DroppedIffTooOld(R, b, c)
-             /\ NoLossNoDup(R, b, c) /\ BatchIndependent(R, b, W) /\ LazyEqualsPre(R, b, c))
+             /\ NoLossNoDup(R, b, c) /\ BatchIndependent(R, b, W))
 
 \* C08_TagOrderIndependent: a series IS its canonical key (measurement + tags sorted by key); the order in
 \* which the tags were given is not part of the model's input, so the route cannot depend on it.  The
